@@ -251,6 +251,14 @@ def run_case(case) -> Outcome:
                 out.bad(f"late-params:rejected:{crash_sig(res)}", case, f"expression `{text}` over late-bound macro parameters rejected: {res['status']} {res['exc']} {res.failure_text[:200]}\n{body}")
             elif _flat(res) != _le(value, 3) + _le(value, 3) + _le(value >> 24, 3):
                 fail("late-params", "value", f"emitted {_flat(res).hex()} expected {(_le(value, 3) + _le(value, 3) + _le(value >> 24, 3)).hex()}\n{body}")
+    if directive_ok and ids and "lb_a" not in ids:
+        # scopes that define the expression's names with other values (a block, a loop whose variable has one of the names, a macro
+        # whose parameter has) have been closed before the expression is written: it means what it means at the top level again
+        names = sorted(ids)
+        inner = "".join(f"{n} := 0x{env[n] + 5 + i:x}\n" for i, n in enumerate(names))
+        shadows = ("{\n" + inner + ".db 0x11\n}\n" + f".for {names[0]} := 3, 5 {{\n.db 0x22\n}}\n" +
+                   ".macro m_sh(" + ", ".join(names) + ") {\n.db 0x33\n}\nm_sh(" + ", ".join(str(7 + i) for i in range(len(names))) + ")\n")
+        asm("after-closed-scopes", shadows + f".dl {text}\n.dl ({text})>>24\n", b"\x11\x22\x22\x33" + _le(value, 3) + _le(value >> 24, 3))
     if directive_ok and eager_ok and ids and "lb_a" not in ids:
         # a := symbol of the expression is assigned again between two uses of the same text (a running counter): what is
         # evaluated while the program is expanded (macro arguments, := definitions) sees the value at that point
